@@ -145,7 +145,9 @@ inductive Call
   | eq (i j : Nat)
   | hash (i : Nat)
   | processIter
-  | oneshot (i : Nat) (enter : Bool)   -- `with p.oneshot():` entered / left on object i (no answer may change)
+  | oneshot (i : Nat) (enter : Bool)   -- `with p.oneshot():` entered / left on object i (no answer may change); also stands for
+                                       -- every OTHER public call outside the identity machinery (harness op `other`: wait(0),
+                                       -- as_dict, name, status, cpu_times, str, hash, username, …): identity on this state
   | status (i : Nat)                   -- the status word `str(p)` / `repr(p)` shows
   deriving DecidableEq, Repr
 
